@@ -151,7 +151,33 @@ protected:
   }
 };
 }
+namespace rlbox {
+// B32S: 32-bit representations but only 2^MEMLOG bytes of memory at the start of a 2^32-aligned window; like
+// mask-based real backends, impl_is_in_same_sandbox compares windows (coarse) while
+// impl_is_pointer_in_sandbox_memory is exact. Used only for kernels whose correctness rests on the *exact*
+// membership test (checked entry points, allocator results) - pointer translation itself may leave the memory.
+template<unsigned MEMLOG>
+class rlbox_vsbx_small : public rlbox_vsbx<uint32_t, 32>
+{
+public:
+  static constexpr uint64_t MEM = 1ull << MEMLOG;
+protected:
+  static inline bool impl_is_in_same_sandbox(const void* p1, const void* p2)
+  {
+    return (reinterpret_cast<uintptr_t>(p1) >> 32) == (reinterpret_cast<uintptr_t>(p2) >> 32);
+  }
+  inline bool impl_is_pointer_in_sandbox_memory(const void* p)
+  {
+    auto a = reinterpret_cast<uintptr_t>(p);
+    return a >= this->base && a - this->base < MEM;
+  }
+  inline bool impl_is_pointer_in_app_memory(const void* p) { return !impl_is_pointer_in_sandbox_memory(p); }
+  inline size_t impl_get_total_memory() { return MEM; }
+};
+}
 using B32 = rlbox::rlbox_vsbx<uint32_t, 32>;
+using B64 = rlbox::rlbox_vsbx<uint64_t, 32>;   // host-width, non-identity representation (offset from base)
+using B32S = rlbox::rlbox_vsbx_small<16>;
 using B32G = rlbox::rlbox_vsbx_grant<uint32_t, 32>;
 using B16 = rlbox::rlbox_vsbx<uint16_t, 16>;
 using B8 = rlbox::rlbox_vsbx<uint8_t, 8>;
